@@ -166,6 +166,7 @@ def run(ch, idx, tier):
     use_progs = entry.meta["has_progset"] and ch.flip("with_programs", 0.65)
     progset = P.progsets[0] if use_progs else None
     history = []
+    trace = []
     compared = 0
     scratch = tempfile.mkdtemp(prefix="atomsim_c16_", dir=os.environ.get("VERIF_SCRATCH"))
     instr_start = float(P.settings.sim_start + 2)
@@ -190,6 +191,7 @@ def run(ch, idx, tier):
             return
         compared += 1
         bump("evaluations")
+        trace.append([digest_result(ra), digest_result(rb)])
         bad = compare_arrays(result_arrays(ra), result_arrays(rb), rtol=tol, atol=tol)
         if bad:
             d = {"tol": tol, "first_bad": [[p, w, ix] for p, w, ix in bad[:3]], "n_bad": len(bad)}
@@ -200,10 +202,11 @@ def run(ch, idx, tier):
     # history of editing operations
     # ---------------------------------------------------------------------------------------
     nops = ch.choose("history_length", 5)
-    OPS = ["none", "parset_copy", "add_pop", "remove_pop", "rename_pop", "add_transfer", "remove_transfer", "data_edit", "sample_zero", "load_calibration", "edit_yfactor"]
+    OPS = ["none", "parset_copy", "add_pop", "remove_pop", "rename_pop", "add_transfer", "remove_transfer", "data_edit", "sample_zero", "load_calibration", "edit_yfactor", "connection_edit"]
     if progset is not None:
         OPS += ["add_program", "remove_program", "remove_par", "remove_comp", "progset_edit", "progset_copy", "reconcile", "progset_sample_zero", "remove_program", "reconcile"]
     new_names = 0
+    aborted = False
     try:
         for k in range(nops):
             op = OPS[ch.choose(f"op[{k}]", len(OPS))]
@@ -234,6 +237,8 @@ def run(ch, idx, tier):
                     if len(data.pops) < 2:
                         continue
                     victim = list(data.pops.keys())[ch.choose("remove_pop.which", len(data.pops))]
+                    if progset is not None and any(prog.target_pops == [victim] for prog in progset.programs.values()):
+                        continue  # would leave a program without any target (legitimately refused by the model)
                     data.remove_pop(victim)
                     if progset is not None:
                         progset.remove_pop(victim)
@@ -293,11 +298,30 @@ def run(ch, idx, tier):
                     elif kind == 1 and len(ts.t) > 1:
                         ts.remove(ts.t[ch.choose("data_edit.rm", len(ts.t))])
                     elif kind == 2:
+                        if data.tdve[n_].write_uncertainty is False:
+                            continue  # this table does not persist an uncertainty column by design (timed parameters)
                         ts.sigma = [None, 0.0, 0.25][ch.choose("data_edit.sigma", 3)]
                     else:
                         ts.assumption = base * ch.uniform("data_edit.scale2", 0.7, 1.3) if not ts.has_time_data else ts.assumption
                     parset = at.ParameterSet(fw, data, parset.name)
                     op = f"data_edit({n_!r},{p_!r},kind={kind})"
+                elif op == "connection_edit":
+                    tdcs = [t for t in data.transfers + data.interpops if t.ts]
+                    if not tdcs:
+                        continue
+                    tdc = tdcs[ch.choose("connection_edit.which", len(tdcs))]
+                    keys = list(tdc.ts.keys())
+                    key = keys[ch.choose("connection_edit.pair", len(keys))]
+                    ts = tdc.ts[key]
+                    tv = [float(x) for x in tdc.tvec]
+                    base = float(ts.interpolate(tv[0])[0]) if ts.has_data else 0.1
+                    if ch.flip("connection_edit.timevalue", 0.7):
+                        ts.insert(tv[ch.choose("connection_edit.year", len(tv))], base * ch.uniform("connection_edit.scale", 0.5, 1.5))
+                    else:
+                        ts.t, ts.vals = [], []
+                        ts.assumption = base * ch.uniform("connection_edit.scale", 0.5, 1.5)
+                    parset = at.ParameterSet(fw, data, parset.name)
+                    op = f"connection_edit({tdc.code_name!r},{key})"
                 elif op == "sample_zero":
                     for par in parset.all_pars():
                         for ts in par.ts.values():
@@ -416,10 +440,30 @@ def run(ch, idx, tier):
                     op = f"reconcile({bounds})"
                 history.append(op)
                 bump(f"op:{op.split('(')[0]}")
-            except (AssertionError, at.InvalidProgramBook, at.InvalidDatabook, KeyError, ValueError, at.BadInitialization) as e:
-                # an operation refusing its arguments is not a round-trip matter; it is counted and the history continues
+            except (AssertionError, at.InvalidProgramBook, at.InvalidDatabook, KeyError, ValueError, at.BadInitialization, AttributeError, TypeError, IndexError) as e:
+                # An operation may deliberately refuse its arguments (an explicit raise / assert in the library): counted.
+                # An exception that merely escapes from the middle of a library operation applied to a state that library
+                # operations built (e.g. list.remove() failing inside remove_pop) is a crash of the operation: reported.
+                import linecache
+                import traceback as _tb
+
+                frames = _tb.extract_tb(e.__traceback__)
+                lib = [fr for fr in frames if "/atomica/" in fr.filename]
+                deliberate = True
+                if lib:
+                    last = lib[-1]
+                    src = (last.line or linecache.getline(last.filename, last.lineno)).strip()
+                    innermost_is_lib = frames[-1] is last or frames[-1].filename == last.filename
+                    deliberate = innermost_is_lib and (src.startswith("raise") or src.startswith("assert"))
+                    if not deliberate and not isinstance(e, (AssertionError, at.InvalidProgramBook, at.InvalidDatabook, at.BadInitialization)):
+                        violate("library_operation_crashes", f"{last.filename.split('/atomica/')[-1]}:{last.name}", {"operation": op if isinstance(op, str) else str(op), "exception": f"{type(e).__name__}: {str(e)[:200]}", "line": src[:120]})
                 history.append(f"{op} -> refused {type(e).__name__}")
                 bump("op_refused")
+                aborted = True  # the refused operation may have been applied half-way: no claim about the resulting state
+                break
+        if aborted:
+            bump("runs_abandoned_after_refused_operation")
+            return {"violations": violations, "stats": stats, "signature": None, "nontrivial": False, "sample": {"project": name, "history": history, "abandoned": True}, "oplog": history, "trace": trace}
         # -----------------------------------------------------------------------------------
         # round trips
         # -----------------------------------------------------------------------------------
@@ -551,6 +595,7 @@ def run(ch, idx, tier):
         "nontrivial": bool(compared >= 1 and len(history) >= 1),
         "sample": {"project": name, "programs": use_progs, "history": history, "paired_simulations": compared, "violations": [v["cls"] for v in violations]},
         "oplog": history,
+        "trace": trace,
     }
 
 
